@@ -79,6 +79,10 @@ package jpeg
 // next marker.
 //@ dep callback jpeg.jpegReader.ExifReader
 //@   names r h -> err
+//@   requires [C10 C06] h.FirstIfd == ifds.IFD0 && h.ImageType == imagetype.ImageJPEG
+//@   requires [C10 C06 C07] sigLEat(r, pos(r)) ==> h.ByteOrder == utils.LittleEndian && h.FirstIfdOffset == le32At(r, pos(r) + 4)
+//@   requires [C10 C06 C07] sigBEat(r, pos(r)) ==> h.ByteOrder == utils.BigEndian && h.FirstIfdOffset == be32At(r, pos(r) + 4)
+//@   requires [C10] !isSigAt(r, pos(r)) ==> h.ByteOrder == utils.UnknownEndian
 //@   modifies stream(r)
 //@   ensures pos(r) >= old(pos(r))
 
@@ -86,6 +90,9 @@ package jpeg
 //@   props C02 C10 C06
 //@   requires atMarker(jr) && exifPrefixAt(jr.br, pos(jr.br) + 4)
 //@   modifies jr.discarded, stream(jr.br)
+//@   ghost hOff uint32 = exifHeader.TiffHeaderOffset
+//@   ghost hLen uint32 = exifHeader.ExifLength
+//@   ensures [C10] hOff != 0 || hLen != 0 ==> hOff == old(jr.discarded) + 10 && hLen == uint32(int(jr.size) - 8)
 //@   ensures [C10] pos(jr.br) >= old(pos(jr.br))
 //@   ensures [C10] err == nil && jr.ExifReader == nil ==> pos(jr.br) == old(pos(jr.br)) + 2 + int(jr.size)
 
@@ -120,3 +127,11 @@ package jpeg
 //@   modifies jr.err, jr.discarded, stream(jr.br), io.LimitedReader.N
 //@   ensures [C10] pos(jr.br) >= old(pos(jr.br))
 //@   ensures [C10] jr.err == nil && jr.ExifReader == nil ==> pos(jr.br) == old(pos(jr.br)) + 2 + int(jr.size)
+
+// ScanJPEG: the marker loop. Termination: every iteration either consumes input or sets the sticky error.
+//@ func ScanJPEG
+//@   props C01 C02 C10
+//@   entry
+//@   requires r != nil
+//@   loop 0 invariant jr != nil && jr.br != nil
+//@   loop 0 decreases ite(jr.err == nil, 1, 0), lim(jr.br) - pos(jr.br)
